@@ -9,10 +9,12 @@ package main
 // compared with Model.OfferShape.
 
 import (
+	"encoding/json"
 	"fmt"
 	"sort"
 	"strconv"
 	"strings"
+	"sync"
 	"time"
 
 	"github.com/pion/sdp/v3"
@@ -342,5 +344,216 @@ func init() {
 		},
 		Coq:    func(c nCase) string { return c12Cache.take(c) },
 		Shrink: nShrink,
+	})
+}
+
+// ---------- suite tdetails: trackDetailsFromSDP(what addSenderSDP wrote) ----------
+
+type tdCase struct {
+	Kind    int      `json:"kind"`
+	Dir     int      `json:"dir"` // 1 sendrecv, 2 sendonly
+	ID      string   `json:"id"`
+	Stream  string   `json:"stream"`
+	RIDs    []string `json:"rids"` // empty: one encoding without rid
+	Engine  int      `json:"engine"`
+	Mutate  int      `json:"mutate"` // 0 none, 1 drop, 2 swap with next, 3 corrupt number, 4 recvonly, 5 duplicate
+	At      int      `json:"at"`
+	coqSec  string
+}
+
+var tdCache = struct {
+	mu sync.Mutex
+	m  map[string]*nCacheEntry
+}{m: map[string]*nCacheEntry{}}
+
+func tdKey(c tdCase) string {
+	c.coqSec = ""
+	b, _ := json.Marshal(c)
+	return string(b)
+}
+
+func tdRun(c tdCase) (V, string, Verdict) {
+	signalOnly(true)
+	api := newQuietAPI(nEngine(c.Engine))
+	pc, err := api.NewPeerConnection(webrtc.Configuration{})
+	if err != nil {
+		panic(err)
+	}
+	defer pc.Close() //nolint
+	mk := func(rid string) *webrtc.TrackLocalStaticSample {
+		return nTrack(nOp{Kind: c.Kind, ID: c.ID, Stream: c.Stream, RID: rid})
+	}
+	first := ""
+	if len(c.RIDs) > 0 {
+		first = c.RIDs[0]
+	}
+	tr, err := pc.AddTransceiverFromTrack(mk(first), webrtc.RTPTransceiverInit{Direction: webrtc.RTPTransceiverDirection(c.Dir)})
+	if err != nil {
+		panic(err)
+	}
+	for _, rid := range c.RIDs[min(1, len(c.RIDs)):] {
+		if err := tr.Sender().AddEncoding(mk(rid)); err != nil {
+			return VS("addencoding-refused"), "", Pass("refused", false)
+		}
+	}
+	offer, err := pc.CreateOffer(nil)
+	if err != nil {
+		panic(err)
+	}
+	parsed := &sdp.SessionDescription{}
+	if err := parsed.UnmarshalString(offer.SDP); err != nil {
+		panic(err)
+	}
+	m := parsed.MediaDescriptions[0]
+	// positions of the attributes the function reads
+	var rel []int
+	for i, a := range m.Attributes {
+		switch a.Key {
+		case "msid", "ssrc", "ssrc-group", "rid":
+			rel = append(rel, i)
+		}
+	}
+	at := 0
+	if len(rel) > 0 {
+		at = rel[c.At%len(rel)]
+	}
+	switch c.Mutate {
+	case 1:
+		m.Attributes = append(append([]sdp.Attribute{}, m.Attributes[:at]...), m.Attributes[at+1:]...)
+	case 2:
+		if at+1 < len(m.Attributes) {
+			m.Attributes[at], m.Attributes[at+1] = m.Attributes[at+1], m.Attributes[at]
+		}
+	case 3:
+		m.Attributes[at].Value = strings.Replace(m.Attributes[at].Value, "1", "x", 1)
+	case 4:
+		for i := range m.Attributes {
+			if m.Attributes[i].Key == "sendrecv" || m.Attributes[i].Key == "sendonly" {
+				m.Attributes[i].Key = "recvonly"
+			}
+		}
+	case 5:
+		m.Attributes = append(m.Attributes, m.Attributes[at])
+	}
+	got := webrtc.VerifTrackDetailsFromSDP(parsed)
+	out := VL{}
+	for _, d := range got {
+		kind := 2
+		if d.Kind == webrtc.RTPCodecTypeAudio {
+			kind = 1
+		}
+		ss := VL{}
+		for _, x := range d.SSRCs {
+			ss = append(ss, VZ(int64(x)))
+		}
+		rtx, fec := VL{}, VL{}
+		if d.RTX != nil {
+			rtx = VL{VZ(int64(*d.RTX))}
+		}
+		if d.FEC != nil {
+			fec = VL{VZ(int64(*d.FEC))}
+		}
+		rids := VL{}
+		for _, r := range d.RIDs {
+			rids = append(rids, VS(r))
+		}
+		out = append(out, VL{VS(d.Mid), VZ(kind), VS(d.StreamID), VS(d.ID), ss, rtx, fec, rids})
+	}
+	// model input: the section with the attributes the function looks at
+	var attrs []string
+	for _, a := range m.Attributes {
+		switch a.Key {
+		case "msid", "ssrc", "ssrc-group", "rid", "simulcast":
+			attrs = append(attrs, fmt.Sprintf("(%s, %s)", CoqString(a.Key), CoqString(a.Value)))
+		}
+	}
+	mid, hasMid := nMid(m)
+	mkind := [...]string{"MOther", "MAudio", "MVideo", "MApp"}[nMediaKind(m)]
+	coq := fmt.Sprintf("SA %s %s %s %s", CoqOpt(hasMid, CoqString(mid)), mkind, nCoqDirOpt(nDirOf(m)), CoqList(attrs))
+
+	// direct oracle: the round trip, for ids without spaces, on the unmutated section
+	v := Pass(fmt.Sprintf("mut%d/encs%d", c.Mutate, max(1, len(c.RIDs))), c.Mutate == 0)
+	clean := !strings.Contains(c.ID, " ") && !strings.Contains(c.Stream, " ") && c.ID != "" && c.Stream != ""
+	if c.Mutate == 0 && clean {
+		encs := tr.Sender().GetParameters().Encodings
+		switch {
+		case len(got) != 1:
+			v = Fail("roundtrip-track-count", fmt.Sprintf("%d tracks read back from one sender", len(got)))
+		case got[0].Mid != tr.Mid() || got[0].Kind != tr.Kind() || got[0].StreamID != c.Stream || got[0].ID != c.ID:
+			v = Fail("roundtrip-identity-differs", fmt.Sprintf("%+v", got[0]))
+		case len(encs) == 1:
+			d := got[0]
+			okR := (d.RTX == nil && encs[0].RTX.SSRC == 0) || (d.RTX != nil && *d.RTX == encs[0].RTX.SSRC)
+			okF := (d.FEC == nil && encs[0].FEC.SSRC == 0) || (d.FEC != nil && *d.FEC == encs[0].FEC.SSRC)
+			if len(d.SSRCs) != 1 || d.SSRCs[0] != encs[0].SSRC || !okR || !okF {
+				v = Fail("roundtrip-ssrc-differs", fmt.Sprintf("%+v vs %+v", d, encs[0]))
+			}
+		default:
+			var want []string
+			for _, e := range encs {
+				want = append(want, e.RID)
+			}
+			if strings.Join(got[0].RIDs, ",") != strings.Join(want, ",") {
+				v = Fail("roundtrip-rids-differ", fmt.Sprintf("%v vs %v", got[0].RIDs, want))
+			}
+		}
+	}
+	return VL{VS("ok"), out}, coq, v
+}
+
+func init() {
+	Register(Spec[tdCase]{
+		ID: "C12", Suite: "tdetails", CoqImports: []string{"Model.OfferShape", "Check.C12"},
+		CoqType: "sec", CoqRun: "Check.C12.run_td",
+		Quick: 250, Thorough: 6000, Parallel: 8, Timeout: 30 * time.Second,
+		Corpus: func() []tdCase {
+			return []tdCase{
+				{Kind: 2, Dir: 1, ID: "ta", Stream: "s1", Engine: 2},
+				{Kind: 2, Dir: 2, ID: "ta", Stream: "s1", RIDs: []string{"q", "h", "f"}, Engine: 1},
+				{Kind: 1, Dir: 1, ID: "t a", Stream: "s1", Engine: 0},
+				{Kind: 2, Dir: 1, ID: "ta", Stream: "s1", Engine: 2, Mutate: 2, At: 0},
+			}
+		},
+		Gen: func(r *Rand, i int) tdCase {
+			c := tdCase{Kind: r.Range(1, 2), Dir: r.Range(1, 2), ID: Pick(r, []string{"ta", "tb", "t c", "x", " lead"}),
+				Stream: Pick(r, []string{"s1", "s2", "s 3", "y"}), Engine: r.Intn(4)}
+			if r.Chance(1, 3) {
+				c.RIDs = [][]string{{"q"}, {"q", "h"}, {"q", "h", "f"}}[r.Intn(3)]
+			}
+			if r.Chance(1, 2) {
+				c.Mutate = r.Range(1, 5)
+				c.At = r.Intn(40)
+			}
+			return c
+		},
+		Run: func(c tdCase) (V, Verdict) {
+			obs, coq, v := tdRun(c)
+			tdCache.mu.Lock()
+			k := tdKey(c)
+			if e, ok := tdCache.m[k]; ok {
+				e.ambiguous, e.pending = true, e.pending+1
+			} else {
+				tdCache.m[k] = &nCacheEntry{coq: coq, pending: 1}
+			}
+			tdCache.mu.Unlock()
+			return obs, v
+		},
+		Coq: func(c tdCase) string {
+			tdCache.mu.Lock()
+			defer tdCache.mu.Unlock()
+			k := tdKey(c)
+			e, ok := tdCache.m[k]
+			if !ok {
+				return ""
+			}
+			e.pending--
+			if e.pending <= 0 {
+				delete(tdCache.m, k)
+			}
+			if e.ambiguous {
+				return ""
+			}
+			return e.coq
+		},
 	})
 }
